@@ -38,7 +38,7 @@ func parseRlimits(out string) map[string]string {
 func runC08(res *Result, d *Driver, tier string, seed uint64) {
 	res.Rule = "part A: real RLimits.PrepareRLimit and (*Tracer).checkUsage on random records/usages (zero/non-zero masks, values around 2^31, 2^32, 2^63, soft>hard, boundary usages) vs the Go-lite evaluation of the regenerated functions and the hand models; " +
 		"part B: probe `report rlimits` under the ptrace runner, the namespace runner and the container for random records (configured = exact pair, unconfigured = the harness' own); " +
-		"part C: CPU burner / file grower / memory toucher for the verdict mapping; part D: pipe.NewBuffer(N) with writers of volume 0,N-1,N,N+1,N+2,10N,8MiB. " +
+		"part C: CPU burner / file grower / memory toucher for the verdict mapping, the measured bounds also for programs that afterwards exit non-zero, abort, fault or are terminated; part D: pipe.NewBuffer(N) with writers of volume 0,N-1,N,N+1,N+2,10N,8MiB. " +
 		"non-trivial = at least one configured limit / a usage at a boundary / a volume above the cap; distinct = distinct record, usage tuple, (runner,record), volume."
 	rng := NewRng(seed, "C08", 1)
 	vals := []uint64{0, 0, 1, 2, 1 << 20, 1<<31 - 1, 1 << 31, 1<<32 - 1, 1 << 32, 1<<32 + 1, 1 << 40, 1<<63 - 1, 1 << 63, ^uint64(0)}
@@ -142,12 +142,12 @@ func runC08(res *Result, d *Driver, tier string, seed uint64) {
 		nB = 300
 	}
 	safe := map[string][]uint64{
-		"cpu":   {0, 1, 5, 1 << 33},
-		"hard":  {0, 2, 7, 1 << 34},
-		"data":  {0, 64 << 20, 1<<32 + 4096, 1 << 40},
-		"fsize": {0, 4096, 1 << 20, 1<<32 + 1},
-		"stack": {0, 256 << 10, 8 << 20, 1 << 33},
-		"as":    {0, 256 << 20, 1<<32 + 8192, 1 << 42},
+		"cpu":    {0, 1, 5, 1 << 33},
+		"hard":   {0, 2, 7, 1 << 34},
+		"data":   {0, 64 << 20, 1<<32 + 4096, 1 << 40},
+		"fsize":  {0, 4096, 1 << 20, 1<<32 + 1},
+		"stack":  {0, 256 << 10, 8 << 20, 1 << 33},
+		"as":     {0, 256 << 20, 1<<32 + 8192, 1 << 42},
 		"nofile": {0, 16, 64, 1024},
 	}
 	for i := 0; i < nB; i++ {
@@ -237,6 +237,14 @@ func runC08(res *Result, d *Driver, tier string, seed uint64) {
 		{"rlimit-fsize", "grow " + tmpf.Name() + " 100000;exit 0", RunSpec{RLimits: fs}, runner.StatusOutputLimitExceeded, []string{"ptrace", "container"}, "grow /tmp/g 100000;exit 0"},
 		{"usage-time", "spin 300;exit 0", RunSpec{Limit: runner.Limit{TimeLimit: 100 * time.Millisecond, MemoryLimit: 1 << 40}}, runner.StatusTimeLimitExceeded, []string{"ptrace", "unshare"}, ""},
 		{"usage-mem", "mem 64;exit 0", RunSpec{Limit: runner.Limit{TimeLimit: time.Hour, MemoryLimit: 16 << 20}}, runner.StatusMemoryLimitExceeded, []string{"ptrace", "unshare"}, ""},
+		// the measured bound decides whatever way the program ends afterwards
+		{"usage-mem", "mem 64;exit 3", RunSpec{Limit: runner.Limit{TimeLimit: time.Hour, MemoryLimit: 16 << 20}}, runner.StatusMemoryLimitExceeded, []string{"ptrace", "unshare"}, ""},
+		{"usage-mem", "mem 64;raise 6", RunSpec{Limit: runner.Limit{TimeLimit: time.Hour, MemoryLimit: 16 << 20}}, runner.StatusMemoryLimitExceeded, []string{"ptrace", "unshare"}, ""},
+		{"usage-mem", "mem 64;fault segv", RunSpec{Limit: runner.Limit{TimeLimit: time.Hour, MemoryLimit: 16 << 20}}, runner.StatusMemoryLimitExceeded, []string{"ptrace", "unshare"}, ""},
+		{"usage-mem", "mem 64;raise 15", RunSpec{Limit: runner.Limit{TimeLimit: time.Hour, MemoryLimit: 16 << 20}}, runner.StatusMemoryLimitExceeded, []string{"ptrace", "unshare"}, ""},
+		{"usage-time", "spin 300;exit 3", RunSpec{Limit: runner.Limit{TimeLimit: 100 * time.Millisecond, MemoryLimit: 1 << 40}}, runner.StatusTimeLimitExceeded, []string{"ptrace", "unshare"}, ""},
+		{"usage-time", "spin 300;raise 6", RunSpec{Limit: runner.Limit{TimeLimit: 100 * time.Millisecond, MemoryLimit: 1 << 40}}, runner.StatusTimeLimitExceeded, []string{"ptrace", "unshare"}, ""},
+		{"usage-time", "spin 300;fault segv", RunSpec{Limit: runner.Limit{TimeLimit: 100 * time.Millisecond, MemoryLimit: 1 << 40}}, runner.StatusTimeLimitExceeded, []string{"ptrace", "unshare"}, ""},
 		{"under-limits", "spin 20;mem 4;exit 0", RunSpec{Limit: runner.Limit{TimeLimit: 5 * time.Second, MemoryLimit: 1 << 30}}, runner.StatusNormal, []string{"ptrace", "unshare", "container"}, ""},
 	}
 	for _, c := range cases {
@@ -257,7 +265,7 @@ func runC08(res *Result, d *Driver, tier string, seed uint64) {
 				rr, _ = env.runProbe(spec, false)
 				env.Reset()
 			}
-			key := c.name + " " + rn
+			key := c.name + " " + rn + " `" + c.script + "`"
 			res.Case(key, true, "verdict-"+c.name)
 			res.Traces++
 			bad := rr.Status != c.want
